@@ -71,6 +71,9 @@ def run(rep: core.Report):
     _r17g(rep)
     _r17h(rep)
     _r17i(rep)
+    from rules import shared_bcast
+
+    shared_bcast.run(rep, "R17j", sorted(core.python_files("phonopy/interface")))
 
 
 # ---------------------------------------------------------------------------
@@ -839,4 +842,6 @@ def selftest():
     n("constant through a local alias", CALC, 'units["factor"] = PwscfToTHz', 'units["factor"] = PwscfToTHz * 1.0')
     b("wien2k forces addressed through a table over phonopy's independent atoms", "phonopy/interface/wien2k.py", "        force_set = []\n        for i in range(natom):\n            j = indep_atoms_to_wien2k.index(map_atoms[i])", "        force_set = []\n        indep_index = {a: k for k, a in enumerate(independent_atoms)}\n        for i in range(natom):\n            j = indep_index[map_atoms[i]]", "R17i", "forces_remap")
     n("wien2k lookup through a table over the list kept next to the forces", "phonopy/interface/wien2k.py", "        force_set = []\n        for i in range(natom):\n            j = indep_atoms_to_wien2k.index(map_atoms[i])", "        force_set = []\n        where = {a: k for k, a in enumerate(indep_atoms_to_wien2k)}\n        for i in range(natom):\n            j = where[map_atoms[i]]")
+    b("abinit writer normalises the lattice column-wise", "phonopy/interface/abinit.py", '    lines += ((" % 20.16f" * 3 + "\\n") * 3) % tuple(cell.cell.ravel())', '    lat = cell.cell\n    lines += ((" % 20.16f" * 3 + "\\n") * 3) % tuple((lat / np.linalg.norm(lat, axis=1)).ravel())', "R17j", "axis=1")
+    n("abinit writer normalises the lattice row-wise", "phonopy/interface/abinit.py", '    lines += ((" % 20.16f" * 3 + "\\n") * 3) % tuple(cell.cell.ravel())', '    lat = cell.cell\n    lines += ((" % 20.16f" * 3 + "\\n") * 3) % tuple((lat / np.linalg.norm(lat, axis=1, keepdims=True) * np.linalg.norm(lat, axis=1, keepdims=True)).ravel())')
     return V
